@@ -345,10 +345,9 @@ def histOp (st : HistState) (op : String) (args : List String) : Option (HistSta
     let (to, ts) ← pTok args
     let (cs, _) ← pCoins ts
     if !(USERS.contains to) then some (st, "err") else
-    let bank := cs.foldl (fun (b : Bank) c =>
-      { b with bal := fun a d => if a == to && d == c.denom then b.bal a d + c.amount else b.bal a d,
-               supply := fun d => if d == c.denom then b.supply d + c.amount else b.supply d }) w.bank
-    some ({ st with w := some { w with bank := bank } }, "ok")
+    match ({ w.bank with calls := 0, failAt := none } : Bank).mint to cs with
+    | .ok bank => some ({ st with w := some { w with bank := { bank with calls := w.bank.calls, failAt := w.bank.failAt } } }, "ok")
+    | .error _ => some (st, "err")
   | "send" => do
     let w ← st.w
     let (frm, ts) ← pTok args
